@@ -24,6 +24,20 @@ f_prod = z3.Function("prod", IntArr, z3.IntSort(), z3.IntSort(), z3.IntSort())  
 f_dot = z3.Function("dot", IntArr, IntArr, z3.IntSort(), z3.IntSort())  # sum_{i<n} a[i]*b[i]
 
 
+def str_le_fn():
+    """The order of strings (what `<=` / max / min / sorted use): an uninterpreted total order."""
+    return z3.Function("str_le", TStr.sort(), TStr.sort(), z3.BoolSort())
+
+
+def order_axioms() -> list[z3.BoolRef]:
+    le = str_le_fn()
+    x, y, w = z3.Consts("so_x so_y so_w", TStr.sort())
+    return [z3.ForAll([x], le(x, x), patterns=[le(x, x)]),
+            z3.ForAll([x, y], z3.Implies(z3.And(le(x, y), le(y, x)), x == y), patterns=[z3.MultiPattern(le(x, y), le(y, x))]),
+            z3.ForAll([x, y, w], z3.Implies(z3.And(le(x, y), le(y, w)), le(x, w)), patterns=[z3.MultiPattern(le(x, y), le(y, w))]),
+            z3.ForAll([x, y], z3.Or(le(x, y), le(y, x)), patterns=[le(x, y)])]
+
+
 def axioms() -> list[z3.BoolRef]:
     m = z3.Const("m", BoolArr)
     s = z3.Const("s", IntArr)
@@ -47,7 +61,7 @@ def axioms() -> list[z3.BoolRef]:
     ax.append(z3.ForAll([s, s2, j], z3.Implies(j > 0, f_dot(s, s2, j) == f_dot(s, s2, j - 1)
                                                + z3.Select(s, j - 1) * z3.Select(s2, j - 1)),
                         patterns=[f_dot(s, s2, j)]))
-    return ax
+    return ax + order_axioms()
 
 
 _OPAQUE: dict = {}
@@ -361,6 +375,9 @@ class _Sym:
     def min(self, a, b):
         return z3.If(a <= b, a, b)
 
+    def str_le(self, a, b):
+        return str_le_fn()(a.t if isinstance(a, Val) else a, b.t if isinstance(b, Val) else b)
+
 
 _UFS: dict = {}
 CONC_IMPL: dict[str, Callable] = {}  # name -> python implementation of an uninterpreted spec function
@@ -493,6 +510,9 @@ class _Conc:
 
     def min(self, a, b):
         return min(a, b)
+
+    def str_le(self, a, b):
+        return a <= b
 
 
 SYM = _Sym()
